@@ -30,6 +30,8 @@ fn drops(out: &mut Vec<i128>, start: usize, all: &mut Vec<i64>) {
     all.extend(d);
 }
 
+/// [N, bomb, 28, L] `GenericArray::try_from_iter` over a source that yields L items and hides that from its
+/// size_hint ((0, None)): the rejected partial / complete array is torn down inside the call;
 /// [N, bomb, 23] drop the array itself; [N, bomb, 24|26, p] ArrayBuilder / IntrusiveArrayBuilder
 /// with p slots written; [N, bomb, 25, p] ArrayConsumer with p elements consumed
 fn teardown<N: ArrayLength>(case: &[i128]) -> (Vec<i128>, Vec<String>) {
@@ -41,6 +43,50 @@ fn teardown<N: ArrayLength>(case: &[i128]) -> (Vec<i128>, Vec<String>) {
     let mut out = vec![];
     let mut all = vec![];
     let start;
+    if case[2] == 28 {
+        let l = p;
+        let mut i = 0usize;
+        let src = std::iter::from_fn(move || {
+            if i < l {
+                i += 1;
+                Some(Tr::new(i as i64 - 1))
+            } else {
+                None
+            }
+        });
+        track::arm_drop(if bomb >= 0 { Some(bomb) } else { None });
+        let start = track::log_len();
+        let r = catch(move || GenericArray::<Tr, N>::try_from_iter(src));
+        match r {
+            Ok(Ok(arr)) => {
+                out.push(7);
+                for e in arr {
+                    all.push(e.id);
+                    std::mem::forget(e);
+                }
+            }
+            Ok(Err(_)) => out.push(5),
+            Err(_) => out.push(6),
+        }
+        let d = track::drops_sorted(&track::log_from(start));
+        out.push(d.len() as i128);
+        out.extend(d.iter().map(|x| *x as i128));
+        all.extend(d);
+        track::arm_drop(None);
+        let mut oracle = vec![];
+        let mut sorted = all.clone();
+        sorted.sort();
+        for w in sorted.windows(2) {
+            if w[0] == w[1] {
+                oracle.push(format!("element {} released twice (destructor runs + moves to the caller)", w[0]));
+            }
+        }
+        let delivered = if l == n { n } else { l.min(n + 1) };
+        if sorted.len() != delivered {
+            oracle.push(format!("{} items were delivered, {} were released or returned", delivered, sorted.len()));
+        }
+        return (out, oracle);
+    }
     let r = match case[2] {
         23 => {
             let arr: GenericArray<Tr, N> = GenericArray::generate(|i| Tr::new(i as i64));
@@ -105,7 +151,7 @@ fn teardown<N: ArrayLength>(case: &[i128]) -> (Vec<i128>, Vec<String>) {
 }
 
 fn run<N: ArrayLength>(case: &[i128]) -> (Vec<i128>, Vec<String>) {
-    if case.len() >= 3 && (23..=26).contains(&case[2]) {
+    if case.len() >= 3 && ((23..=26).contains(&case[2]) || case[2] == 28) {
         return teardown::<N>(case);
     }
     let n = case[0] as i64;
@@ -281,6 +327,16 @@ fn main() {
                     dist("teardown");
                     do_case(vec![n as i128, bomb, kind, p as i128]);
                 }
+            }
+        }
+    }
+    // the array torn down inside try_from_iter (too few / too many items, hidden from the size hint), every
+    // choice of the panicking element among the items that can be delivered
+    for n in (0..=max_n).chain([16usize, 33]) {
+        for l in 0..=(n + 2) {
+            for bomb in -1..=(n as i128) {
+                dist("teardown_collect");
+                do_case(vec![n as i128, bomb, 28, l as i128]);
             }
         }
     }
